@@ -109,6 +109,19 @@ def rule_addr_guard(fx, col):
         # (4) the replacement is produced by the caller-supplied closure only (the helper loads nothing itself)
         cell_ops = [s for s in sites if s.cls == 'cell']
         col.add('ADDR-GUARD', '%s|no direct cell access' % fn, not cell_ops, 'the helper never touches a cell itself: %s' % [s.loc for s in cell_ops])
+        # (4b) the helper fills its OWN envelope, and reads which one that is only after replacement() returned
+        #      (replacement() is a nested load that may itself be helped, which trades the helper's envelope away)
+        own = [s for s in sites if s.cls == 'space_offer' and s.op == 'load' and s.root == ('arg', 1)]
+        ho = [s for s in sites if s.cls == 'handover' and s.op in ('store', 'swap')]
+        for hs in ho:
+            recv = {o[1] for o in b.origins(hs.arg(0), binops=True) if o[0] == 'call'}
+            mine = bool(own) and recv and recv <= {s.bb for s in own}
+            col.add('ADDR-GUARD', '%s|fills its own envelope' % fn, mine,
+                    'the envelope written is the one self.space_offer points to (receiver derives from %s)' % sorted(b.loc(x) for x in recv), hs.loc)
+        for s in own:
+            fresh = bool(repl_calls) and all(b.dominates(rb, s.bb) and rb != s.bb for rb, _ in repl_calls)
+            col.add('ADDR-GUARD', '%s|own envelope read after replacement()' % fn, fresh,
+                    'self.space_offer is read at %s, after the nested load that may have exchanged it' % s.loc, s.loc)
         # (5) their space is read before the exchange (afterwards the reader may already have moved on)
         sp = [s for s in sites if s.cls == 'space_offer' and s.op == 'load' and s.root != ('arg', 1)]
         for c in cas:
